@@ -107,6 +107,7 @@ def _one(sc, r):
     ref = _tree_np(a_ref)
     mats0 = _materials_np(arrays0)
     nontriv = float(np.abs(ref["E"]).max()) > 0
+    scaleE, scaleH = float(np.abs(ref["E"]).max()), float(np.abs(ref["H"]).max())
     dk = tuple(sorted(meta["detector_kinds"]))
     wit0 = {"case": sc, "meta": meta, "shape": scene["shape"]}
     for d in meta["detector_kinds"]:
@@ -122,7 +123,10 @@ def _one(sc, r):
                 ok = False
                 continue
             m = mech(k, got[k]) if mech else None
-            ok &= r.check_close("state", got[k], v, 1e-12, what=None, witness={**wit, "array": k, "what": what}, mechanism=m, sig=sig)
+            # PML auxiliary arrays are differences of fields: they are judged against the field scale (a loop that is
+            # compiled with another trip count may round differently at 1e-16 of the operands)
+            atol = 1e-13 * (scaleE if k.startswith("psiH") else scaleH) if k.startswith("psi") else 0.0
+            ok &= r.check_close("state", got[k], v, 1e-12, what=None, witness={**wit, "array": k, "what": what}, mechanism=m, sig=sig, atol=atol)
         return ok
 
     # ---------------- (a) partitions ------------------------------------------------------------
